@@ -5,7 +5,7 @@
 # is touched. One trial at a time (uses /tmp/hv-mut).
 set -u
 PATCH=$(readlink -f "$1"); shift
-M=/tmp/hv-mut
+M=${HV_MUT:-/tmp/hv-mut}
 export CARGO_NET_OFFLINE=true
 if [ ! -d $M/repo ]; then
   mkdir -p $M
